@@ -13,8 +13,13 @@ Leg C: oracle = the three soundness implications checked directly on the impleme
 import json
 import os
 
+import sys
+
 import vlib
-from vlib import Report, coq_prove, cargo_build, run_bin, coq_eval
+from vlib import Report, coq_prove, cargo_build, run_bin, coq_eval, gen_if_changed
+
+sys.path.insert(0, os.path.join(vlib.VERIF, "translators"))
+import summary_shapes as shapes_tr  # noqa: E402
 
 NPOOL = 80
 TARGETS = ["a", "ab", "a::b", "b"]
@@ -533,45 +538,68 @@ def dec_h(x):
 
 
 def compare_filter(c, o, mo):
-    """-> list of disagreements (implementation vs model)"""
+    """-> (list of disagreements (implementation vs model), set of disagreeing data keys)"""
     d = []
+    keys = set()
     h, ints, accs, _ = mo
     if dec_h(h) != o["hint"]:
         d.append({"what": "max_level_hint", "impl": o["hint"], "model": dec_h(h)})
+        keys.add(("hint",))
     for i in range(NPOOL):
         if ints[i] != o["int"][i]:
-            d.append({"what": "callsite_enabled", "meta": i, "impl": o["int"][i], "model": ints[i]})
-            break
+            if ("int",) not in {k[:1] for k in keys}:
+                d.append({"what": "callsite_enabled", "meta": i, "impl": o["int"][i], "model": ints[i]})
+            keys.add(("int", i))
     for k in range(len(o["acc"])):
+        first = True
         for i in range(NPOOL):
             if accs[k][i] != o["acc"][k][i]:
-                d.append({"what": "enabled", "meta": i, "ctx": k, "impl": o["acc"][k][i], "model": accs[k][i]})
-                break
-    return d
+                if first:
+                    d.append({"what": "enabled", "meta": i, "ctx": k, "impl": o["acc"][k][i], "model": accs[k][i]})
+                    first = False
+                keys.add(("dyn", k, i))
+    return d, keys
 
 
 def compare_stack(c, o, mo):
     d = []
+    keys = set()
     h, ints, ctxs, allrec, _ = mo
     if dec_h(h) != o["hint"]:
         d.append({"what": "max_level_hint", "impl": o["hint"], "model": dec_h(h)})
+        keys.add(("hint",))
     for i in range(NPOOL):
         if ints[i] != o["int"][i]:
-            d.append({"what": "register_callsite", "meta": i, "impl": o["int"][i], "model": ints[i]})
-            break
+            if ("int",) not in {k[:1] for k in keys}:
+                d.append({"what": "register_callsite", "meta": i, "impl": o["int"][i], "model": ints[i]})
+            keys.add(("int", i))
     for k, cx in enumerate(o["ctx"]):
         men, mrecv = ctxs[k]
+        first = True
         for i in range(NPOOL):
+            bad = None
             if men[i] != cx["en"][i]:
-                d.append({"what": "enabled", "meta": i, "ctx": k, "impl": cx["en"][i], "model": men[i]})
-                break
-            if cx["en"][i] and mrecv[i] != cx["recv"][i]:
-                d.append({"what": "deliveries", "meta": i, "ctx": k, "impl": cx["recv"][i], "model": mrecv[i]})
-                break
-            if cx["direct"][i] != allrec:
-                d.append({"what": "deliveries-without-enabled", "meta": i, "ctx": k, "impl": cx["direct"][i], "model": allrec})
-                break
-    return d
+                bad = {"what": "enabled", "meta": i, "ctx": k, "impl": cx["en"][i], "model": men[i]}
+            elif cx["en"][i] and mrecv[i] != cx["recv"][i]:
+                bad = {"what": "deliveries", "meta": i, "ctx": k, "impl": cx["recv"][i], "model": mrecv[i]}
+            elif cx["direct"][i] != allrec:
+                bad = {"what": "deliveries-without-enabled", "meta": i, "ctx": k, "impl": cx["direct"][i], "model": allrec}
+            if bad:
+                if first:
+                    d.append(bad)
+                    first = False
+                keys.add(("dyn", k, i))
+    return d, keys
+
+
+def model_agrees_on(keys, kind, i, k):
+    """may a violation of this kind at metadata i / context k be explained with the model's class predicates?
+    Only if the model agrees with the implementation on the data the violation is about."""
+    if ("dyn", k, i) in keys:
+        return False
+    if kind == "hint":
+        return ("hint",) not in keys
+    return ("int", i) not in keys
 
 
 # which known-finding classes can explain which kind of violation
@@ -653,6 +681,10 @@ def run(ctx):
         "every callsite is registered (register_callsite) before enabled() is asked about it, as tracing-core guarantees",
         "NoReloadedFiltered: no Filtered inside reload::Subscriber (documented restriction of reload)",
         "per-layer filter state is clean at the start of each enabled() pass (no F3 history; C07)"]
+    # ---- translator: the pure summary-merging functions and the shapes read as flags, from the source of ctx.repo
+    text, unrec = shapes_tr.main(ctx.repo, None)
+    gen_if_changed(os.path.join(vlib.COQ, "gen", "Gen_summary.v"), text)
+    rep.tie("translator:Gen_summary", not unrec, "; ".join(unrec[:4]), unrec[:1] or None)
     # ---- leg A
     rep.proof = coq_prove(ctx, "C08", ["theories/Properties/C08.vo"])
     # ---- implementation
@@ -723,9 +755,9 @@ def run(ctx):
                 if "glob" in ks and "filt" in ks:
                     rep.nontrivial.add(line)
             rep.evaluations += NPOOL * nctx
-            dis = []
+            dis, dkeys = [], set()
             if mo is not None:
-                dis = compare_filter(c, o, mo) if c["kind"] == "F" else compare_stack(c, o, mo)
+                dis, dkeys = compare_filter(c, o, mo) if c["kind"] == "F" else compare_stack(c, o, mo)
                 if dis:
                     disagree.append({"case": line, "first": dis[0], "n": len(dis)})
                 if c["kind"] == "S" and not mo[4][2][2]:
@@ -738,20 +770,23 @@ def run(ctx):
                 continue
             reported = set()
             for kind, i, k in bad:
-                if kind in reported:
-                    continue
                 if kind == "hint" and mo is not None and c["kind"] == "S" and mo[4][2][1]:
-                    rep.count("excluded:reload-around-Filtered(hint)")
-                    reported.add(kind)
+                    if (kind, "reload") not in reported:
+                        rep.count("excluded:reload-around-Filtered(hint)")
+                        reported.add((kind, "reload"))
                     continue
+                # a violation is attributed to a known finding only if the model agrees with the implementation on
+                # the data it is about and the failing (case, metadata) lies in that finding's class
                 fid = None
-                if mo is not None and not dis:
+                if mo is not None and model_agrees_on(dkeys, kind, i, k):
                     cl = classes_of(c, mo, i)
                     for cand in KIND_CLASSES[kind]:
                         if cand in cl:
                             fid = cand
                             break
-                reported.add(kind)
+                if (kind, fid) in reported:
+                    continue
+                reported.add((kind, fid))
                 rep.count("oracle:%s:%s" % (kind, fid or "UNEXPLAINED"))
                 m = POOL[i]
                 what = {"never": "summary says `never` for a callsite that is accepted when asked dynamically",
